@@ -97,3 +97,15 @@ CLAIMS["C14"] = (
     "Decides rules R14.1-R14.5. Not decided: len(datagram) <= MTU as joint arithmetic over all four configuration axes (wiring and each budget function are decided, not the sum for every combination); MTU outside [1280,1500]." + COMMON_NOTE,
     "constant folding over the whole MTU range and a boundary grid, argument provenance at call sites, dominance on go/ssa",
     "3/C14")
+
+CLAIMS["C04"] = (
+    "Provenance and ordering rules on both receive paths: the payload of every segment that leaves the reader is the result of an AEAD open that returned nil (or nil); every read size and every slice bound on attacker-controlled bytes is a field of the metadata that was itself opened and parsed with nil error (+ constants); a stream authentication or parse failure ends the read loop for that connection, a datagram failure discards that datagram's segment and never reaches the session; the direction gate on protocol numbers is folded for all 16 values; per-datagram nonce sharing between metadata and payload is inventoried.",
+    "Decides rules R04.1, R04.2, R04.4-R04.7. Not decided: the strength of XChaCha20-Poly1305 itself, what the application finally reads (C01/C02), unauthenticated padding bytes (they are never delivered, R04.1). Known finding F12 (R04.7): on UDP metadata and payload are sealed under the same key and nonce without domain separation, so the two ciphertexts of one datagram are interchangeable (demonstrated in demos/F12)." + COMMON_NOTE,
+    "provenance slices through go/ssa (phi, convert, defer-spilled results), nil-error edge detection, dominance, path-cut reachability, constant folding of the direction gate",
+    "3/C04")
+
+CLAIMS["C01"] = (
+    "The shape of the TCP data path on every path the compiler can build. Sender: each splitting loop is a consume loop (sent slice and advance use the same length, cursor starts at the input), sequence numbers are assigned under the output lock, payloads are private copies, the output loop dequeues and transmits within one critical section, every encryption and connection write of a segment happens under the connection's send mutex on the buffer just encrypted. Wire: the connection is read only with ReadFull/ReadAtLeast and only in sizes taken from authenticated metadata; fragment sizes fit the 16-bit length for every mode; both sides advance the implicit nonce exactly once per operation. Receiver: dispatch by authenticated session id, a single producer for the in-order queue, a full queue waits (never drops) unless the session is closed, and Read is a consume loop that keeps and replays the tail that did not fit before any newer segment.",
+    "Decides rules R01.1-R01.10. These are necessary conditions of byte-exact in-order delivery; the equality of bytes read and written itself needs execution and is not claimed, nor are goroutine schedules beyond the lock discipline or the segment tree's ordering (a data structure property)." + COMMON_NOTE,
+    "consume-loop recognition on go/ssa (slice/phi structure), must-hold lock check, dominance, who-may-call/who-may-write inventories, provenance of read sizes, constant folding of fragment sizes",
+    "3/C01")
